@@ -2,6 +2,7 @@ package main
 
 import (
 	"go/types"
+	"strings"
 
 	"golang.org/x/tools/go/ssa"
 )
@@ -352,6 +353,46 @@ func c14Teardown(p *P, r *R, sc *ssa.Function) {
 			}
 		}
 		r.ob("R14.4", "addGlobalBufferManagerRefCount: the last reference unmaps and unregisters the buffer manager", p.pos(rc.Pos()), okLast, true, "")
+	}
+	// reference counting: a table hit takes exactly one reference under the table lock; a new manager starts at 1
+	nHit := 0
+	for _, f := range p.fnList {
+		if !strings.HasPrefix(p.fname(f), "getGlobalBufferManager") {
+			continue
+		}
+		held, _ := p.heldBefore(f, p.mutexRegion("globalBufferManager.Mutex"), false)
+		for _, ai := range findInstrs(f, p.mAtomic("Add", "bufferManager.refCount")) {
+			nHit++
+			k, okk := constInt(ai.(*ssa.Call).Call.Args[1])
+			hit := false
+			for _, fct := range factsAt(ai.Block()) {
+				if e, ok := fct.Cond.(*ssa.Extract); ok && fct.Truth {
+					if lk, ok := e.Tuple.(*ssa.Lookup); ok && lk.CommaOk && isLoadOf(lk.X, "globalBufferManager.bms") {
+						hit = true
+					}
+				}
+			}
+			r.ob("R14.4", p.fname(f)+": a table hit takes exactly one reference, under the table lock", p.ipos(ai), okk && k == 1 && hit && held[ai], true,
+				"every session that uses a shared buffer manager must be counted, otherwise the first teardown unmaps memory the others still use")
+		}
+		// insertion under the lock
+		allInstrs(f, func(in ssa.Instruction) {
+			if mu, ok := in.(*ssa.MapUpdate); ok && isLoadOf(mu.Map, "globalBufferManager.bms") {
+				r.ob("R14.4", p.fname(f)+": a new buffer manager is registered under the table lock", p.ipos(in), held[in], true, "")
+			}
+		})
+	}
+	r.count("R14.4", "reference increments on table hits", nHit, 2)
+	for _, name := range []string{"createBufferManager", "mappingBufferManager"} {
+		if f := p.fn(name); f != nil {
+			ok := false
+			for _, si := range findInstrs(f, mStoreWord("bufferManager.refCount")) {
+				if k, okk := constInt(si.(*ssa.Store).Val); okk && k == 1 {
+					ok = true
+				}
+			}
+			r.ob("R14.4", name+": a new buffer manager starts with one reference", p.pos(f.Pos()), ok, true, "")
+		}
 	}
 	if dc := p.fn("(*connEventHandler).deferredClose"); dc != nil {
 		var body *ssa.Function
